@@ -32,7 +32,8 @@ type Scenario struct {
 	Kind string `json:"kind"` // pointErr | nodeErr | panic
 	At   int    `json:"at"`   // point number (0 = when the node goroutine starts)
 	N    int    `json:"n"`    // points written
-	Trig string `json:"trig"` // pointErr trigger: div0 (integer division by zero) | substr (built-in that panics: strSubstring start > stop)
+	Trig  string `json:"trig"`  // pointErr trigger: div0 | substr (built-in that panics) | missing (field absent, referenced twice in one call)
+	Flood int    `json:"flood"` // further points written after the scenario's n points (more than the edge buffers hold)
 }
 
 type Outcome struct {
@@ -43,6 +44,8 @@ type Outcome struct {
 	VNodeFailed  bool   `json:"vNodeFailed"`
 	BNodeFailed  bool   `json:"bNodeFailed"`
 	StopReturned bool   `json:"stopReturned"`
+	WriteBlocked bool   `json:"writeBlocked"`
+	BFlood       int    `json:"bFlood"`
 	Leaked       int    `json:"leaked"`
 	Note         string `json:"note,omitempty"`
 }
@@ -129,8 +132,15 @@ func RunChild(r *rt.Run) (err error) {
 		// d = 1 normally, 0 at the faulty point: strSubstring("s", 1 - d ... ) with start 2 > stop 1 panics inside the built-in
 		mid = `|where(lambda: strSubstring('str', 2 - 2 * "d", 1) == 's')`
 	}
+	if sc.Kind == "pointErr" && sc.Trig == "missing" {
+		// the faulty point lacks field a; the lambda passes the missing reference twice to one call
+		mid = `|where(lambda: max("a", "a") > 0.0)`
+	}
 	if sc.Kind == "pointErr" && sc.Node == 1 {
 		from = `from().measurement('m').where(lambda: 10 / "d" > 0)`
+		if sc.Trig == "missing" {
+			from = `from().measurement('m').where(lambda: max("a", "a") > 0.0)`
+		}
 		if sc.Trig == "substr" {
 			from = `from().measurement('m').where(lambda: strSubstring('str', 2 - 2 * "d", 1) == 's')`
 		}
@@ -152,14 +162,38 @@ func RunChild(r *rt.Run) (err error) {
 		if k == sc.At && sc.Kind == "nodeErr" {
 			g = "x"
 		}
-		p := rt.MustPoint("m", map[string]string{"g": g}, map[string]any{"d": d, "k": int64(k)}, rt.DefaultTime.T(k))
+		fields := map[string]any{"d": d, "k": int64(k), "a": 1.5}
+		if k == sc.At && sc.Kind == "pointErr" && sc.Trig == "missing" {
+			delete(fields, "a")
+		}
+		p := rt.MustPoint("m", map[string]string{"g": g}, fields, rt.DefaultTime.T(k))
 		if err := env.Write("db", "rp", p); err != nil {
 			return fmt.Errorf("write: %w", err)
 		}
 	}
 	out := Outcome{Alive: true}
+	// flood: the daemon must keep ingesting (and the bystander keep receiving) far more points than the
+	// dead task's edge buffers hold; a blocked WritePoints is recorded, not waited for
+	if sc.Flood > 0 {
+		wdone := make(chan struct{})
+		go func() {
+			for k := sc.N + 1; k <= sc.N+sc.Flood; k++ {
+				p := rt.MustPoint("m", map[string]string{"g": "gg"}, map[string]any{"d": int64(1), "k": int64(k), "a": 1.5}, rt.DefaultTime.T(k))
+				env.Write("db", "rp", p)
+			}
+			close(wdone)
+		}()
+		select {
+		case <-wdone:
+		case <-time.After(45 * time.Second):
+			out.WriteBlocked = true
+			out.Note = "WritePoints blocked for 45s during the flood"
+		}
+	}
 	// the bystander must see every point; wait for that (a miss is recorded, not assumed)
-	env.Diag.WaitCount("b", sc.N, 20*time.Second)
+	if !out.WriteBlocked {
+		env.Diag.WaitCount("b", sc.N+sc.Flood, 45*time.Second)
+	}
 	done := make(chan struct{})
 	go func() {
 		env.TM.StopTask("b")
@@ -198,6 +232,12 @@ func RunChild(r *rt.Run) (err error) {
 			rt.Fatalf("c05child: sink %s saw a point without field k: %v", it.Sink, it.Point.Fields())
 		}
 		k := int(kv)
+		if k > sc.N {
+			if it.Sink == "b" {
+				out.BFlood++
+			}
+			continue // flood points are counted, not listed
+		}
 		if it.Sink == "v" {
 			out.VDelivered = append(out.VDelivered, k)
 		} else if it.Sink == "b" {
